@@ -1,6 +1,6 @@
 #!/bin/bash
 # runs every claimed check at the given tier (default quick), one line per property; optional list of ids
-cd /verif
+cd "$(dirname "$(readlink -f "$0")")/.."
 tier=${1:-quick}; shift
 ids="$@"
 [ -z "$ids" ] && ids=$(python3 -c "import json;print(' '.join(c['property_id'] for c in json.load(open('MANIFEST.json'))['checks']))")
